@@ -2,7 +2,10 @@
 
 package restful
 
-import "strconv"
+import (
+	"strconv"
+	"strings"
+)
 
 // Ranking of Accept ranges (C05): greater q first, header order on ties.
 
@@ -216,3 +219,26 @@ func rankedAs(l []mime, h string, n int) bool {
 		return l[i].media == rMedia(h, rkSrc(h, n, i)) && l[i].quality == rQ(h, rkSrc(h, n, i))
 	})
 }
+
+// --- the router's view of the same header (C05: a request admitted on Accept grounds is not answered 406) ---
+
+// admitIdx(P, h): index of the first range of h that the router's admission (acceptAdmits) accepts; -1 if none.
+func admitIdx(P []string, h string) int {
+	i := strings.Index(h, ",")
+	if i < 0 {
+		if rangeAdmitsAccept(P, h) {
+			return 0
+		}
+		return -1
+	}
+	if rangeAdmitsAccept(P, h[:i]) {
+		return 0
+	}
+	if admitIdx(P, h[i+1:]) < 0 {
+		return -1
+	}
+	return admitIdx(P, h[i+1:]) + 1
+}
+
+// beforeSemi(s): s up to its first ";" (all of s if it has none).
+func beforeSemi(s string) string { return model_splitPart(s, ";", 0) }
